@@ -81,7 +81,7 @@ PROPS['C06'] = {
     'quick_configs': ['default'],
     'thorough_configs': ALL,
     'controls': [],
-    'floors': {'default': {'V0': 100, 'V1': 10, 'V2': 8, 'V3': 1, 'V4': 10, 'V5': 6, 'FT1': 1, 'SB1': 1, 'SB2': 1}},
+    'floors': {'default': {'V0': 100, 'V1': 10, 'V2': 8, 'V3': 1, 'V4': 10, 'V5': 6, 'FT1': 1, 'SB1': 1, 'SB2': 1, 'V6': 2}},
     'rule_text': 'one obligation per device write of format_volume (dominated by the Ok edge of format_boot_sector and the '
                  'accepting edge of the strict self-validation: V1), per error construction in the layout code (only '
                  'InvalidInput; the validation failure is re-labelled InvalidInput: V2), the boot-sector copies (one '
@@ -237,7 +237,7 @@ PROPS['C12'] = {
 }
 
 PROPS['C05'] = {
-    'modules': ['c05', ('c03', ['R3.8'])],
+    'modules': ['c05', ('c03', ['R3.8', 'R3.7b'])],
     'level': 'other',
     'quick_configs': ['default'],
     'thorough_configs': ALL,
@@ -297,7 +297,7 @@ PROPS['C15'] = {
     'level': 'other',
     'quick_configs': ['default', 'noalloc'],
     'thorough_configs': ALL,
-    'controls': ['N1'],
+    'controls': ['N1', 'N8'],
     'floors': {'default': {'N1': 6, 'N3.chars': 1, 'N3.len': 1, 'N6': 1, 'N5': 2, 'N2': 60, 'N5b': 1, 'N7': 1}},
     'rule_text': 'obligations: one per instance of create_file/create_dir/rename (two-state protocol: no unguarded device '
                  'write before a name validator\'s Ok edge), the accepted-character table over all 0x110000 code points, '
@@ -324,11 +324,11 @@ PROPS['C15'] = {
 }
 
 PROPS['C01'] = {
-    'modules': ['c15', 'c01', ('c03', ['R3.7'])],
+    'modules': ['c15', 'c01', ('c03', ['R3.7', 'R3.7b'])],
     'level': 'other',
     'quick_configs': ['default'],
     'thorough_configs': ALL,
-    'controls': ['N1'],
+    'controls': ['N1', 'N8'],
     'floors': {'default': {'N1': 6, 'R1.2': 6, 'R1.3': 1, 'R1.5': 6, 'R3.7': 1, 'R1.7': 120, 'R1.8': 1, 'N5b': 1}},
     'rule_text': 'obligations: N1 instances (shared with C15), one per mutation site of create_file/create_dir/'
                  'rename_internal (must lie on the `name is free` arm), the emptiness guard of remove, the '
@@ -555,7 +555,7 @@ PROPS['C18'] = {
     'quick_configs': ['default'],
     'thorough_configs': ALL,
     'controls': [],
-    'floors': {'default': {'R18.1': 3, 'R18.2': 6, 'R18.4': 1, 'R18.5': 3, 'R18.6': 4, 'R18.3': 1}},
+    'floors': {'default': {'R18.1': 3, 'R18.2': 6, 'R18.4': 1, 'R18.5': 3, 'R18.6': 4, 'R18.3': 1, 'R18.7': 2}},
     'rule_text': 'obligations: one per clock read (must go through options.time_provider), per timestamp setter (closed '
                  'caller set from the mono call graph), the access-date option guard, the stamp-on-write must-call, the '
                  'rename-keeps-body shape and one per editor setter (its unchanged-test must cover every stored field)',
@@ -580,7 +580,7 @@ PROPS['C19'] = {
     'quick_configs': ['default', 'noalloc'],
     'thorough_configs': ['default', 'noalloc'],
     'controls': [],
-    'floors': {'default': {'R19.1': 1000, 'R19.1b': 2, 'R19.3': 2}},
+    'floors': {'default': {'R19.1': 1000, 'R19.1b': 2, 'R19.3': 2, 'R19.4': 1}},
     'rule_text': 'one obligation per fatfs function body per configuration pair (default vs no-alloc, default vs '
                  'no-unicode): equal normalised fingerprint or member of the documented feature-dependent set; one per '
                  'user of the unicode-dependent case-folding function; the sibling API and size relation of the two '
